@@ -732,7 +732,7 @@ func (e *Eval) call(n *Node) Val {
 			x.emit(fmt.Sprintf("(assert (forall ((%s Int)) (= (select %s %s) %s)))", bn, g, bn, body.T))
 			return Val{T: g, Sort: "(Array Int " + bs + ")"}
 		}
-		if sf, ok := x.db.SFuncs[nm]; ok && sf.Rec {
+		if sf, ok := e.lookupSF(nm); ok && sf.Rec {
 			var as []string
 			for i, a := range args {
 				v := e.eval(a)
@@ -757,7 +757,7 @@ func (e *Eval) call(n *Node) Val {
 				}
 			}
 		}
-		if sf, ok := x.db.SFuncs[nm]; ok {
+		if sf, ok := e.lookupSF(nm); ok {
 			if len(args) != len(sf.Params) {
 				e.fail("spec func %s expects %d arguments", nm, len(sf.Params))
 			}
@@ -1027,4 +1027,16 @@ func (x *Engine) declRec(sf *SpecFunc, e *Eval) {
 	}
 	body := c.eval(sf.Body)
 	x.decls = append(x.decls, fmt.Sprintf("(define-fun-rec %s (%s) %s %s)", sf.Name, strings.Join(ps, " "), sf.Ret, body.T))
+}
+
+// lookupSF: spec functions are scoped by package (same name may be defined per package), falling back to the
+// prelude / first definition.
+func (e *Eval) lookupSF(name string) (*SpecFunc, bool) {
+	if e.pkg != nil {
+		if sf, ok := e.x.db.SFuncs[e.pkg.Pkg.Path()+"\x00"+name]; ok {
+			return sf, true
+		}
+	}
+	sf, ok := e.x.db.SFuncs[name]
+	return sf, ok
 }
